@@ -57,6 +57,7 @@ pub struct Workload {
 }
 
 static TICK: AtomicU64 = AtomicU64::new(1);
+pub static HOSTILE_PREDICTED: AtomicU64 = AtomicU64::new(0);
 fn tick() -> u64 {
     TICK.fetch_add(1, Ordering::SeqCst)
 }
@@ -134,7 +135,24 @@ fn client_ops(store: &FeoxStore, mon: &FileMon, cfg: &Cfg, rng: &mut Rng, thread
             };
             let tag = Tag { key_id: key_id(&k), writer: thread as u16, seq };
             if hostile && len > 4096 {
-                hostile_value(tag, len, cfg.version, &k, seq)
+                // make the embedded ghost heads / markers byte-valid for the sector they will land on:
+                // quiesce, then predict the best-fit allocation from the free-space snapshot
+                let mut predicted = None;
+                if rng.chance(2, 3) {
+                    let (fi, ft) = (mon.len(), tick());
+                    if store.flush().is_ok() {
+                        acks.lock().push((fi, mon.len(), ft));
+                    }
+                    let need = indep::record_blocks(cfg.version, k.len(), len);
+                    let snap = store.verif_snapshot();
+                    let mut runs = snap.free_by_start.clone();
+                    runs.sort_by_key(|r| (r.1, r.0));
+                    predicted = runs.iter().find(|r| r.1 >= need).map(|r| r.0);
+                    if predicted.is_some() {
+                        HOSTILE_PREDICTED.fetch_add(1, Ordering::Relaxed);
+                    }
+                }
+                hostile_value(tag, len, cfg.version, &k, seq, predicted)
             } else {
                 values::make(tag, len)
             }
@@ -187,7 +205,7 @@ fn client_ops(store: &FeoxStore, mon: &FileMon, cfg: &Cfg, rng: &mut Rng, thread
 /// or of a complete retirement marker. The landing sector is not known here, so the
 /// v3 token of the ghost head is computed for several nearby candidate sectors in
 /// rotation; v1/v2 heads need no token and are always "valid".
-pub fn hostile_value(tag: Tag, len: usize, version: u32, key: &[u8], seq: u32) -> Vec<u8> {
+pub fn hostile_value(tag: Tag, len: usize, version: u32, key: &[u8], seq: u32, base_sector: Option<u64>) -> Vec<u8> {
     let hl = indep::header_len(version, key.len());
     values::make_with_body(tag, len, |body| {
         // body starts at value offset 18; value starts at extent offset hl
@@ -205,11 +223,11 @@ pub fn hostile_value(tag: Tag, len: usize, version: u32, key: &[u8], seq: u32) -
             }
             let ghost_key = format!("ghost-{seq}-{block}").into_bytes();
             if block % 2 == 1 {
-                let candidate_sector = 16 + ((seq as u64 * 7 + block as u64) % 64);
+                let candidate_sector = base_sector.map(|b| b + block as u64).unwrap_or(16 + ((seq as u64 * 7 + block as u64) % 64));
                 let rec = indep::encode_record(version, &ghost_key, b"ghost-value-ghost-value", 1_900_000_000_000_000_000 + seq as u64, 0, candidate_sector);
                 body[pos..pos + 4096].copy_from_slice(&rec[..4096]);
             } else {
-                let candidate_sector = 16 + ((seq as u64 * 5 + block as u64) % 64);
+                let candidate_sector = base_sector.map(|b| b + block as u64).unwrap_or(16 + ((seq as u64 * 5 + block as u64) % 64));
                 let m = indep::encode_marker(candidate_sector, 1 + (seq as u64 % 3), 1);
                 body[pos..pos + 4096].copy_from_slice(&m);
             }
@@ -651,6 +669,7 @@ pub fn run(args: &Args) -> Report {
             report.count(&format!("sched_{point}_exercised"), exercised);
         }
     }
+    report.count("hostile_values_with_predicted_landing_sector", HOSTILE_PREDICTED.load(Ordering::Relaxed));
     let mut shapes = HashSet::new();
     for w in &wls {
         report.count("workloads", 1);
